@@ -105,6 +105,10 @@ CHECKS['C07']['note'] = 'depth 2, <= 2 bases; Kani checks on emitted witness pro
 CHECKS['C08']['note'] = 'variants bounded (statement says up to 32); Kani checks `Variant as base`, size/align and Default::default() on emitted witness enums; one open known finding (out-of-range values accepted, required by the repository\'s own test)'
 CHECKS['C16']['note'] = 'the extern "<cc>" strings of every vftable slot and address-bound wrapper in the emitted text of sampled witnesses are compared with the resolved conventions'
 CHECKS['C01']['note'] += '; Kani checks offset_of!/size_of/align_of of the emitted struct for sampled width-8 witnesses'
+CHECKS['C05']['technique'] = TECHB
+CHECKS['C05']['note'] = '<= 3 parameters; run-time clause on sampled witnesses by Kani on the emitted wrapper: the literal address is redirected to a recording helper (CBMC cannot call an integer address), the wrapper must use the declared address once, call once with receiver + symbolic arguments in order and return the callee value; ABI string compared textually'
+CHECKS['C15']['technique'] = TECHB
+CHECKS['C15']['note'] = '<= 2 extern values; run-time clause on sampled witnesses by Kani on the emitted accessors with the literal address redirected to harness memory: struct get() is None iff the word is null else the pointee, enum get() returns the stored value, get_<name>() returns the location; each uses the declared address exactly once'
 NA = {}
 ALL = [json.loads(l)['id'] for l in open('properties.jsonl')]
 NA['C13'] = 'whether the emitted crate type-checks is decided by rustc, not by a solver: there is no symbolic dimension to encode (Engine B compiles every witness program as a side effect and reports compile failures, but no C13 verdict is claimed)'
